@@ -171,7 +171,9 @@ func Goroutines() int {
 
 var baseGoroutines int
 
-func Yield()           { runtime.Gosched(); time.Sleep(2 * time.Millisecond) }
+// Yield natively: give every other goroutine ample time to run until it blocks (the interpreter does
+// this exactly; natively a generous pause stands in for it).
+func Yield() { runtime.Gosched(); time.Sleep(150 * time.Millisecond) }
 func AllocLimit(n int) {}
 func SameBacking(a, b []byte) bool {
 	if cap(a) == 0 || cap(b) == 0 {
